@@ -204,7 +204,8 @@ func VerifC13Stuck() {
 	conn1 := newVConn(false)
 	c1 := NewClient(be, conn1)
 	c1.Ref = "1"
-	conn1.in <- mkConnect("x", false, &packet.Message{Topic: "will", Payload: []byte{9}})
+	clean1 := vBool("clean1")
+	conn1.in <- mkConnect("x", clean1, &packet.Message{Topic: "will", Payload: []byte{9}})
 	vQuiesce()
 	vAssert(!conn1.isClosed() && be.activeClients["x"] == c1, "first connection accepted")
 	refs := []string{"2", "3"}
@@ -241,7 +242,7 @@ func VerifC13Stuck() {
 	vAssert(!conn4.isClosed() && be.activeClients["x"] == c4, "the next contender is accepted")
 	vAssert(c4.session.(*memorySession).activeClient == c4, "and owns the session")
 	ack, _ := conn4.sentAt(0).(*packet.Connack)
-	vAssert(ack != nil && ack.SessionPresent, "the persistent session survived the refused takeovers")
+	vAssert(ack != nil && ack.SessionPresent == !clean1, "the persistent session survived the refused takeovers")
 	vAssert(vLive() == 4, "only the accepted connection's goroutines are left")
 	vCover("c13-stuck-end")
 }
